@@ -44,6 +44,30 @@ def make_special_case(rng, kind):
     (two components: one carrying the externals, the other a massive vacuum bubble)"""
     for _ in range(60):
         D = rng.randint(1, 6)
+        if kind == "huge_j":
+            # one-loop polygon with two tiny propagator powers: J ~ 1/(tiny omegas) exceeds 2^63 (whole-valued, beyond every integer type)
+            k = rng.randint(3, 5)
+            edges = [(i, (i + 1) % k) for i in range(k)]
+            edges, mp, _ = gen.relabel(rng, edges)
+            D = 3
+            weights = [rng.uniform(0.9, 1.4) for _ in range(k)]
+            for i in rng.sample(range(k), 2):
+                weights[i] = 10.0 ** rng.uniform(-12, -10)
+            massive = [False] * k; ext = list(mp)
+            dod, Lf, table = oracle.table_oracle(edges, weights, massive, ext, D)
+            if not oracle.divergent_subsets(table) and dod > Fraction(1, 20):
+                return dict(edges=edges, weights=weights, massive=massive, ext=ext, D=D, accepted=True, table=table, dod=dod, loops=Lf,
+                            name="huge_j:polygon")
+            continue
+        if kind == "eight":
+            name = rng.choice(["ladder3", "hexagon_doubled_plus"])
+            edges = list(gen.CATALOGUE["ladder3"]) if name == "ladder3" else list(gen.CATALOGUE["hexagon_doubled"]) + [(0, 3)]
+            c = graphs.make_case(rng, gen.relabel(rng, edges)[0], rng.randint(2, 4), want=True, ext_mode=rng.choice(["all", "subset"]), tries=30,
+                                 mass_mode=rng.choice(["none", "some"]))
+            if c["accepted"] and c["dod"] > Fraction(1, 20):
+                c["name"] = "eight:" + name
+                return c
+            continue
         if kind == "vacuum":
             name = rng.choice(["bubble", "sunrise", "tadpole_pair", "triangle_tadpole"])
             edges = list(gen.CATALOGUE[name]); massive = [True] * len(edges); ext = []
